@@ -91,6 +91,26 @@ theorem p_liq_strictMono :
       have m2 := p_liq_strictMono_partial (a := 235) (b := T2) ⟨le_refl _, by norm_num⟩ ⟨ha'.le, h2u⟩ ha'
       exact lt_trans m1 m2
 
+/-! ### ice curve below liquid curve: monotone interpolation between sample points -/
+
+/-- **`p_ice < p_liq` on a whole interval from ONE comparison of its end points**: both curves increase
+(`p_ice_strictMono`, `p_liq_strictMono`), so if the ice curve at the UPPER end `b` is still below the liquid
+curve at the LOWER end `a`, then `p_ice T < p_liq T` for every `T ∈ [a, b]` (`123 ≤ a ≤ b ≤ 332`).
+The harness evaluates the premise at Float for every pair of neighbouring points of the 0.01 K grid
+123 K … 273.05 K; over ℝ the premise itself (a numeric fact about `exp`/`log`/`tanh` at given reals) is NOT
+proved.  Close to the triple point the curves approach each other faster than one grid step (relative gap
+≈ 9.7e-3 per K against a slope of ≈ 8e-2 per K), so on (273.05, 273.15] only the pointwise grid comparison
+is made. -/
+theorem p_ice_lt_p_liq_between (a b : ℝ) (ha : 123 ≤ a) (hab : a ≤ b) (hb : b ≤ 332)
+    (h : Gen.vapour_pressure_solid b < Gen.vapour_pressure_liquid a) :
+    ∀ T : ℝ, a ≤ T → T ≤ b → Gen.vapour_pressure_solid T < Gen.vapour_pressure_liquid T := by
+  intro T haT hTb
+  have h1 : Gen.vapour_pressure_solid T ≤ Gen.vapour_pressure_solid b :=
+    p_ice_strictMono.monotoneOn ⟨by linarith, by linarith⟩ ⟨by linarith, by linarith⟩ hTb
+  have h2 : Gen.vapour_pressure_liquid a ≤ Gen.vapour_pressure_liquid T :=
+    p_liq_strictMono.monotoneOn ⟨ha, by linarith⟩ ⟨by linarith, by linarith⟩ haT
+  linarith
+
 /-! ### Hertz–Knudsen flux -/
 
 /-- **zero at equilibrium**: equal pressures at equal temperatures give no flux. -/
@@ -313,6 +333,56 @@ theorem visf_cool1D_eq_shelf_before_window (p : SnowIn ℝ) (v : Visf ℝ) (hv :
     mul_le_mul_of_nonneg_left (by exact_mod_cast hin.le) hdt
   have h1' : v.t_vac_start * 3600 < g.dt * (i : ℝ) := by exact_mod_cast h1
   linarith
+
+/-- **real 1D model, rows before a window that opens later — both stages** (in particular a window that opens
+during the SOLIDIFICATION stage).  Let the shelf run nucleate at step `iEnd` (cooling state `s`), and let the
+first `m` solidification step times `dt·iEnd + dt·i`, `i < m`, not exceed the window start.  Then
+* the VISF run has the same cooling stage: same nucleation step and state (field, hazard, every saved row —
+  hence the same nucleation statistics and post-nucleation row, which are functions of that state);
+* after `m` solidification iterations its loop is in the same state as the shelf run's (field, ice
+  fractions, saved rows, solidification bookkeeping);
+* those saved rows are the first rows of the solidification history of the WHOLE VISF run (the loop only
+  appends): the VISF history starts with the shelf run's rows up to the window. -/
+theorem visf_run1D_eq_shelf_before_window_both_stages (p : SnowIn ℝ) (v : Visf ℝ) (hv : p.visf = some v)
+    (Nz : ℕ) (old : Bool) (shelf : List ℝ) (iEnd m : ℕ) (s : Cool1D ℝ) (hdt : 0 ≤ (grid1D p Nz).dt)
+    (hnuc : cool1D (EvapLink.shelfOf p) (grid1D p Nz) old shelf = (some iEnd, s))
+    (hm : ∀ i : ℕ, i < m → (grid1D p Nz).dt * iEnd + (grid1D p Nz).dt * i ≤ v.t_vac_start * 3600)
+    (hm0 : 0 < m) :
+    cool1D p (grid1D p Nz) old shelf = (some iEnd, s) ∧
+    EvapLink.solidAfter p Nz shelf iEnd s m = EvapLink.solidAfter (EvapLink.shelfOf p) Nz shelf iEnd s m ∧
+    ∃ r, (EvapLink.solidAfter p Nz shelf iEnd s (shelf.drop iEnd).length).buf
+          = (EvapLink.solidAfter (EvapLink.shelfOf p) Nz shelf iEnd s m).buf ++ r := by
+  have h0 := hm 0 hm0
+  simp only [Nat.cast_zero, mul_zero, add_zero] at h0
+  have hpre := EvapLink.run1D_prefix_shelf p Nz old shelf iEnd s m hnuc
+    (by
+      intro i hi v' hv' ⟨h1, _⟩
+      rw [hv] at hv'; cases hv'
+      simp only [ofNat'_real] at h1
+      have h1' : v.t_vac_start * 3600 < (grid1D p Nz).dt * (i : ℝ) := by exact_mod_cast h1
+      have : (grid1D p Nz).dt * (i : ℝ) ≤ (grid1D p Nz).dt * (iEnd : ℝ) :=
+        mul_le_mul_of_nonneg_left (by exact_mod_cast hi) hdt
+      linarith)
+    (by
+      intro i hi v' hv' ⟨h1, _⟩
+      rw [hv] at hv'; cases hv'
+      simp only [ofNat'_real] at h1
+      have h1' : v.t_vac_start * 3600 < (grid1D p Nz).dt * (iEnd : ℝ) + (grid1D p Nz).dt * (i : ℝ) := by
+        exact_mod_cast h1
+      have := hm i hi
+      linarith)
+  refine ⟨hpre.1, hpre.2, ?_⟩
+  rw [← hpre.2]
+  exact EvapLink.solidAfter_buf_prefix p Nz shelf iEnd s m
+
+/-- the `sol` of `run1DOn` (whose saved rows, all but the last, are the solidification part of the published
+history) IS `solidAfter` at the full length — so the previous theorem speaks about the published rows -/
+theorem solidAfter_is_run_loop {α : Type} [Transc α] (p : SnowIn α) (Nz : ℕ) (shelf : List α) (iEnd : ℕ)
+    (s : Cool1D α) :
+    EvapLink.solidAfter p Nz shelf iEnd s (shelf.drop iEnd).length =
+      iterIdx (solidStep1D p (grid1D p Nz) (saveStride ((grid1D p Nz).NtExp - iEnd)) iEnd
+        ((grid1D p Nz).dt * Num.ofNat' iEnd)) (shelf.drop iEnd) 0 (EvapLink.solidInit p s) :=
+  EvapLink.solidAfter_full p Nz shelf iEnd s _ (Nat.le_refl _)
 
 /-- **real 1D model, sampled times**: if the vacuum window is met at none of the step times the loops
 evaluate (`dt·i`, and `dt·iEnd + dt·i` after a nucleation at step `iEnd`), the VISF run equals the shelf run —
